@@ -10,6 +10,7 @@ import (
 	"github.com/Oneledger/protocol/action"
 	"github.com/Oneledger/protocol/data/evidence"
 	"github.com/Oneledger/protocol/data/keys"
+	"github.com/Oneledger/protocol/identity"
 )
 
 var _ action.Msg = &Withdraw{}
@@ -135,6 +136,16 @@ func runWithdraw(ctx *action.Context, tx action.RawTx) (bool, action.Response) {
 	}
 
 	if ctx.EvidenceStore.IsFrozenValidator(draw.ValidatorAddress) {
+		return false, action.Response{Log: evidence.ErrFrozenValidator.Error()}
+	}
+	// the matured amounts are kept per stake address, whatever validator address the
+	// message names: the guard covers every validator this stake address stands behind
+	frozen := false
+	ctx.Validators.Iterate(func(addr keys.Address, validator *identity.Validator) bool {
+		frozen = validator.StakeAddress.Equal(draw.StakeAddress) && ctx.EvidenceStore.IsFrozenValidator(validator.Address)
+		return frozen
+	})
+	if frozen {
 		return false, action.Response{Log: evidence.ErrFrozenValidator.Error()}
 	}
 
